@@ -28,14 +28,17 @@ class World:
                        "apply_single_time", "apply_time_axis", "operator_form_tensor", "secular_tensor",
                        "redfield_tensor_rwa", "semigroup_checked", "dense_gt_1", "save_mode_jit", "at_checked", "apply_inside_context", "jit_step_inside_context", "apply_inside_complex_context",
                        "propagator_reused_without_refinement_argument", "apply_window_not_starting_at_zero",
-                       "calculate_twice"]
-    required_faults = ["mode_misuse"]
+                       "calculate_twice", "generator_changed_between_calculations", "calculated_with_pure_dephasing",
+                       "jit_steps_with_pure_dephasing", "propagator_used_with_gaussian_dephasing_first",
+                       "apply_with_pure_dephasing"]
+    required_faults = ["mode_misuse", "refused_dense_setting"]
     components = {
         "real": ["EvolutionSuperOperator: set_dense_dt, calculate, calculate_next(save), at, apply (single time, time axis)",
                  "ReducedDensityMatrixPropagator (tensor and operator form)", "LindbladForm, RelaxationTensor.secularize, "
                  "OpenSystem.get_RelaxationTensor('stR') with RWA Hamiltonian"],
         "stub": [],
-        "reference_model": ["Liouvillian assembled with einsum; scipy.linalg.expm; Taylor remainder bound"],
+        "reference_model": ["Liouvillian assembled with einsum; scipy.linalg.expm; Taylor remainder bound; with pure dephasing the "
+                            "per-dense-step splitting exp(-gamma d) o expm(L d) the library documents"],
     }
     assumptions = [
         "scipy.linalg.expm is exact to 1e-12 relative for the <=16x16 Liouvillians used",
@@ -44,7 +47,9 @@ class World:
         "with a rotating-wave Hamiltonian the superoperator is compared in the rotating frame it is computed in",
     ]
     rule = ("run = one system (dim 2..4; Lindblad tensor / operator form / secularised / Redfield+RWA), one time grid and a seeded history "
-            "of set_dense_dt, calculate, calculate_next(save), at, apply, recalculation and refused mode misuse on an 'all' and a "
+            "of set_dense_dt (also refused settings), set_PureDephasing (Lorentzian dephasing added/removed between calculations, "
+            "the dephasing object possibly converted from a Gaussian one already used by the kept propagator), calculate, "
+            "calculate_next(save), at, apply, recalculation and refused mode misuse on an 'all' and a "
             "'jit' superoperator sharing the generator; after every op identity-at-zero, semigroup, trace/Hermiticity, "
             "agreement with a fresh propagator, jit==all and the expm bound are checked; non-trivial = >=1 calculate and >=2 "
             "jit steps; distinct = distinct event-log digests among non-trivial runs")
@@ -56,10 +61,27 @@ class World:
         dt = rng.choice([1.0, 2.0, 5.0, 10.0])
         ops = []
         n = rng.randint(4, 18)
-        kinds = ["set_dense", "calculate", "next", "next", "next", "at", "apply", "apply", "misuse", "semigroup"]
+        kinds = ["set_dense", "calculate", "next", "next", "next", "at", "apply", "apply", "misuse", "semigroup", "bad_dense"]
+        # swarm member: Lorentzian pure dephasing added to (and removed from) the generator between calculations; the
+        # PureDephasing object may start its life as a Gaussian one used by the directly propagating propagator
+        pdeph = kind != "redfield" and rng.random() < 0.35
+        gauss_first = pdeph and rng.random() < 0.5
+        if pdeph:
+            kinds = kinds + ["set_pdeph", "set_pdeph", "calculate", "apply"]
+            if gauss_first:
+                ops.append({"op": "gauss_propagate", "pay": rng.randrange(1 << 30)})
+                ops.append({"op": "convert_pdeph"})
         for _ in range(n):
             k = rng.choice(kinds)
-            if k == "set_dense":
+            if k == "bad_dense":
+                ops.append({"op": "bad_dense", "n": rng.choice([0, -2, 2.5]), "which": rng.choice(["all", "jit"])})
+                if rng.random() < 0.6:
+                    ops.append({"op": "calculate"})
+            elif k == "set_pdeph":
+                ops.append({"op": "set_pdeph", "on": rng.random() < 0.75, "which": rng.choice(["all", "both", "both"])})
+                if rng.random() < 0.7:
+                    ops.append({"op": "calculate"})
+            elif k == "set_dense":
                 ops.append({"op": "set_dense", "n": rng.choice([1, 2, 3, 5, 10]), "which": rng.choice(["all", "jit", "both"])})
             elif k == "next":
                 ops.append({"op": "next", "times": rng.choice([1, 1, 2, 3, 7]), "ctx": rng.random() < 0.25})
@@ -72,7 +94,7 @@ class World:
             else:
                 ops.append({"op": k})
         return {"N": N, "kind": kind, "Nt": Nt, "dt": dt, "seed": rng.randrange(1 << 30),
-                "jit_save": rng.random() < 0.4, "ops": ops}
+                "jit_save": rng.random() < 0.4, "pdeph": pdeph, "gauss_first": gauss_first, "ops": ops}
 
     def run(self, program, ctx):
         Runner(program, ctx).go()
@@ -92,6 +114,8 @@ class World:
             yield dict(program, kind="lind_tensor")
         if program["jit_save"]:
             yield dict(program, jit_save=False)
+        if program.get("gauss_first"):
+            yield dict(program, gauss_first=False)
 
 
 class Runner:
@@ -150,10 +174,30 @@ class Runner:
         L = -1j * (numpy.einsum("ac,bd->abcd", Hm, I) - numpy.einsum("ac,db->abcd", I, Hm)) + R
         self.L = L.reshape(N * N, N * N)
         self.normL = float(numpy.linalg.norm(self.L, 2))
+        self.pd = None
+        self.gamma = None
+        if p.get("pdeph"):
+            from quantarhei.qm import PureDephasing
+            gm = g.uniform(0.001, 0.03, size=(N, N))
+            gm = (gm + gm.T) / 2.0
+            numpy.fill_diagonal(gm, 0.0)
+            if p.get("gauss_first"):
+                # Gaussian rates (1/fs^2) chosen such that the converted Lorentzian rates are those of gm
+                f = numpy.sqrt(numpy.log(2.0))
+                self.pd = PureDephasing((gm / f) ** 2, dtype="Gaussian")
+            else:
+                self.pd = PureDephasing(gm.copy(), dtype="Lorentzian")
+            self.gamma = gm
 
-    def Uref(self, t):
+    def Uref(self, t, pd=False, dense=1):
         N = self.N
-        return scipy.linalg.expm(self.L * t).reshape(N, N, N, N)
+        if not pd:
+            return scipy.linalg.expm(self.L * t).reshape(N, N, N, N)
+        # the library adds pure dephasing by operator splitting: per dense step exp(L d), then exp(-gamma d) elementwise
+        d = self.p["dt"] / dense
+        n = int(round(t / d))
+        step = numpy.exp(-self.gamma * d).reshape(N * N)[:, None] * scipy.linalg.expm(self.L * d)
+        return numpy.linalg.matrix_power(step, n).reshape(N, N, N, N)
 
     def bound(self, k, dense):
         """|U(t_k) - expm| allowed for k grid steps each of `dense` sub-steps."""
@@ -168,7 +212,7 @@ class Runner:
         N = self.N
         return numpy.einsum("ac,bd->abcd", numpy.eye(N), numpy.eye(N)).astype(complex)
 
-    def check_U(self, U, k, dense, what):
+    def check_U(self, U, k, dense, what, pd=False):
         N = self.N
         check(U.shape == (N, N, N, N), "shape", "%s: shape %r" % (what, U.shape))
         check(numpy.all(numpy.isfinite(U)), "finite", "%s: non-finite values" % what)
@@ -178,7 +222,7 @@ class Runner:
         herm = numpy.conj(U) - numpy.transpose(U, (1, 0, 3, 2))
         check(float(numpy.max(numpy.abs(herm))) <= 1e-10 * (1 + k), "hermiticity-preserved",
               lambda: "%s: conj(U[a,b,c,d]) != U[b,a,d,c] by %g" % (what, numpy.max(numpy.abs(herm))))
-        ref = self.Uref(k * self.p["dt"])
+        ref = self.Uref(k * self.p["dt"], pd, dense)
         err = float(numpy.max(numpy.abs(U - ref)))
         b = self.bound(k, dense)
         check(err <= b, "within-truncation-bound",
@@ -194,7 +238,9 @@ class Runner:
         self.ctx.ev("cfg", self.N, p["kind"], Nt, p["dt"], p["jit_save"])
         Uall = ESO(time=self.time, ham=self.ham, relt=self.relt, mode="all")
         Ujit = ESO(time=self.time, ham=self.ham, relt=self.relt, mode="jit")
-        st = {"all_dense": 1, "jit_dense": 1, "all_calc": False, "all_calc_dense": None, "jit_now": 0, "ncalc": 0}
+        st = {"all_dense": 1, "jit_dense": 1, "all_calc": False, "all_calc_dense": None, "jit_now": 0, "ncalc": 0,
+              "all_pd": False, "jit_pd": False, "all_calc_pd": False}
+        self.st = st
         I = self.identity()
         # initial state: identity at time zero
         check(numpy.array_equal(numpy.array(Uall.data[0]), I), "identity-at-zero", "fresh 'all' superoperator")
@@ -215,6 +261,57 @@ class Runner:
                     self.ctx.probe("dense_gt_1")
                 self.ctx.ev(i, kind, n, op["which"])
                 self.ctx.cov(kind, n, op["which"], st["all_calc"])
+            elif kind == "bad_dense":
+                # a refused dense-step request (zero, negative or fractional number of sub-steps) must leave the object as it was
+                tgt = Uall if op["which"] == "all" else Ujit
+                before = (tgt.dense_time.length, tgt.dense_time.step, numpy.array(tgt.data).copy())
+                try:
+                    tgt.set_dense_dt(op["n"])
+                    raised = None
+                except Exception as e:
+                    raised = e
+                self.ctx.fault("refused_dense_setting")
+                check(raised is not None, "bad-dense-accepted", "op %d: set_dense_dt(%r) was accepted" % (i, op["n"]))
+                check((tgt.dense_time.length, tgt.dense_time.step) == before[:2] and numpy.array_equal(before[2], numpy.array(tgt.data)),
+                      "refusal-changed-data", "op %d: refused set_dense_dt(%r) changed the object" % (i, op["n"]))
+                self.ctx.ev(i, kind, op["n"], op["which"])
+                self.ctx.cov(kind, op["n"], op["which"], st["all_calc"])
+            elif kind == "gauss_propagate":
+                # the directly propagating propagator is used with the (still Gaussian) dephasing object before that
+                # object becomes Lorentzian; nothing is compared here, the run goes on with the same propagator
+                if self.pd is None or self.pd.dtype != "Gaussian":
+                    continue
+                pr = self.propagator(True)
+                gg = numpy.random.Generator(numpy.random.PCG64(op["pay"]))
+                a = gg.uniform(-1, 1, size=(self.N, self.N))
+                r0 = a @ a.T
+                try:
+                    rt = pr.propagate(qr.ReducedDensityMatrix(data=r0 / numpy.trace(r0)))
+                except Exception as e:
+                    raise Violation("propagate-raises", "op %d: %s: %s" % (i, type(e).__name__, e))
+                check(numpy.all(numpy.isfinite(numpy.array(rt.data))), "finite", "op %d: propagation with Gaussian dephasing" % i)
+                self.ctx.probe("propagator_used_with_gaussian_dephasing_first")
+                self.ctx.ev(i, kind)
+            elif kind == "convert_pdeph":
+                if self.pd is None or self.pd.dtype != "Gaussian":
+                    continue
+                self.pd.convert_to("Lorentzian")
+                check(self.pd.dtype == "Lorentzian" and close(numpy.array(self.pd.data), self.gamma, rtol=1e-12, atol=0),
+                      "harness", "conversion of the dephasing rates")
+                self.ctx.ev(i, kind)
+            elif kind == "set_pdeph":
+                if self.pd is None or self.pd.dtype != "Lorentzian":
+                    continue
+                val = self.pd if op["on"] else None
+                Uall.set_PureDephasing(val)
+                st["all_pd"] = bool(op["on"])
+                if op["which"] == "both" and st["jit_now"] == 0:
+                    Ujit.set_PureDephasing(val)
+                    st["jit_pd"] = bool(op["on"])
+                if st["all_calc"] and st["all_calc_pd"] != st["all_pd"]:
+                    self.ctx.probe("generator_changed_between_calculations")
+                self.ctx.ev(i, kind, op["on"], op["which"])
+                self.ctx.cov(kind, op["on"], st["all_calc"], st["jit_now"] > 0)
             elif kind == "calculate":
                 try:
                     Uall.calculate()
@@ -226,11 +323,14 @@ class Runner:
                         self.ctx.probe("recalculate_after_dense_change")
                 st["all_calc"] = True
                 st["all_calc_dense"] = st["all_dense"]
+                st["all_calc_pd"] = st["all_pd"]
+                if st["all_pd"]:
+                    self.ctx.probe("calculated_with_pure_dephasing")
                 st["ncalc"] += 1
                 data = numpy.array(Uall.data)
                 check(close(data[0], I, rtol=0, atol=1e-12), "identity-at-zero", "op %d: U(0) after calculate" % i)
                 for k in range(Nt):
-                    self.check_U(data[k], k, st["all_calc_dense"], "op %d: 'all' U(t_%d)" % (i, k))
+                    self.check_U(data[k], k, st["all_calc_dense"], "op %d: 'all' U(t_%d)" % (i, k), pd=st["all_calc_pd"])
                 self.ctx.ev(i, kind, st["all_dense"], fingerprint(data))
                 self.ctx.cov(kind, st["all_dense"], st["ncalc"] > 1)
             elif kind == "next":
@@ -250,7 +350,7 @@ class Runner:
                         self.ctx.probe("next_past_grid")
                         break
                     try:
-                        if op.get("ctx") and not getattr(self.ham, "has_rwa", False):
+                        if op.get("ctx") and not getattr(self.ham, "has_rwa", False) and not st["jit_pd"]:
                             # the step is requested inside the eigenbasis of the Hamiltonian; read outside afterwards
                             with qr.eigenbasis_of(self.ham):
                                 Ujit.calculate_next(save=p["jit_save"])
@@ -269,8 +369,10 @@ class Runner:
                         check(close(numpy.array(Ujit.data[0]), I, rtol=0, atol=1e-12), "identity-at-zero", "op %d: saved U(0)" % i)
                     else:
                         U = numpy.array(Ujit.data)
-                    self.check_U(U, k, st["jit_dense"], "op %d: 'jit' after %d steps" % (i, k))
-                    if st["all_calc"] and st["all_calc_dense"] == st["jit_dense"] and k < Nt:
+                    self.check_U(U, k, st["jit_dense"], "op %d: 'jit' after %d steps" % (i, k), pd=st["jit_pd"])
+                    if st["jit_pd"]:
+                        self.ctx.probe("jit_steps_with_pure_dephasing")
+                    if st["all_calc"] and st["all_calc_dense"] == st["jit_dense"] and st["all_calc_pd"] == st["jit_pd"] and k < Nt:
                         A = numpy.array(Uall.data[k])
                         check(close(U, A, rtol=0, atol=1e-12 * (1 + k)), "jit-equals-all",
                               lambda: "op %d: jit after %d steps vs all[%d]: %s" % (i, k, k, maxdiff(U, A)))
@@ -345,6 +447,19 @@ class Runner:
                 self.ctx.cov(kind, st["all_calc"], st["jit_now"] > 0)
         self.ctx.nontrivial = st["ncalc"] >= 1 and jit_steps >= 2
 
+    def propagator(self, with_pd):
+        """ONE propagator without and ONE with the dephasing object, each kept for the whole run."""
+        if not hasattr(self, "props"):
+            self.props = {}
+            self.prop_denses = {False: 1, True: 1}
+        if with_pd not in self.props:
+            qr = self.qr
+            if with_pd:
+                self.props[True] = qr.ReducedDensityMatrixPropagator(self.time, self.ham, RTensor=self.relt, PDeph=self.pd)
+            else:
+                self.props[False] = qr.ReducedDensityMatrixPropagator(self.time, self.ham, RTensor=self.relt)
+        return self.props[with_pd]
+
     def do_apply(self, i, op, Uall, st):
         qr = self.qr
         p = self.p
@@ -356,10 +471,9 @@ class Runner:
         rho = qr.ReducedDensityMatrix(data=r0.copy())
         # direct propagation with ONE propagator kept for the whole run; its refinement is set the documented way
         # (propagate(..., Nref=n)) whenever the superoperator was calculated with another dense step, and not touched otherwise
-        if getattr(self, "prop", None) is None:
-            self.prop = qr.ReducedDensityMatrixPropagator(self.time, self.ham, RTensor=self.relt)
-            self.prop_dense = 1
-        prop = self.prop
+        pdon = st["all_calc_pd"]
+        prop = self.propagator(pdon)
+        self.prop_dense = self.prop_denses[pdon]
         try:
             if self.prop_dense != st["all_calc_dense"]:
                 if st["all_calc_dense"] > 1:
@@ -367,13 +481,15 @@ class Runner:
                 else:
                     prop.setDtRefinement(1)
                     rhot = prop.propagate(qr.ReducedDensityMatrix(data=r0.copy()))
-                self.prop_dense = st["all_calc_dense"]
+                self.prop_denses[pdon] = st["all_calc_dense"]
             else:
                 rhot = prop.propagate(qr.ReducedDensityMatrix(data=r0.copy()))
                 self.ctx.probe("propagator_reused_without_refinement_argument")
         except Exception as e:
             raise Violation("propagate-raises", "op %d: %s: %s" % (i, type(e).__name__, e))
         direct = numpy.array(rhot.data)
+        if pdon:
+            self.ctx.probe("apply_with_pure_dephasing")
         if getattr(self.ham, "has_rwa", False) and not getattr(rhot, "is_in_rwa", True):
             # compare in the frame the superoperator is computed in
             try:
@@ -383,7 +499,7 @@ class Runner:
                 return
         how = op["how"]
         data = numpy.array(Uall.data)
-        if op.get("ctx") and not getattr(self.ham, "has_rwa", False):
+        if op.get("ctx") and not getattr(self.ham, "has_rwa", False) and not pdon:
             # the same request made inside the eigenbasis of the Hamiltonian (first access of the superoperator there);
             # everything comes back to the site basis when the context is left and must equal direct propagation
             import contextlib
